@@ -230,8 +230,32 @@ def _ripemd(ctx):
                       '(rho/pi permutations, shift table, integer roots)' % name, mi.relpath)
     # representation-independent step check (any loop nest, inlined f / rotation): always run
     from .rmd import check_compress_generic
-    check_compress_generic(ctx, 'C05.RMD-STEPS', lenient=('fi' in mi.functions and 'rol' in mi.functions))
-    if 'fi' not in mi.functions or 'rol' not in mi.functions:
+    # the helper-function form of the rounds (C05.RMD-F / ROL / ROUND below) applies when fi and rol exist AND compress is
+    # one loop over range(80) that calls them; any other shape is decided by the generic check alone
+    def _helper_form():
+        if 'fi' not in mi.functions or 'rol' not in mi.functions:
+            return False
+        fc_ = p.get_function('ripemd.compress')
+        loops__ = [n for n in fc_.node.body if isinstance(n, ast.For)]
+        e0_ = Evaluator(p, 'ecdsa')
+        from ..evalr import _fixed_items
+        eighty = []
+        for n in loops__:
+            try:
+                its = _fixed_items(e0_.expr(n.iter, Frame(fc_, {}, Facts(), fc_.module, None, 0)))
+            except Exception:
+                its = None
+            if its is not None and len(its) == 80 and all(T.is_const(x) for x in its) and not any(
+                    isinstance(b, (ast.For, ast.While)) for b in n.body):
+                eighty.append(n)
+        if len(eighty) != 1:
+            return False
+        called = {c.func.id for c in ast.walk(eighty[0]) if isinstance(c, ast.Call) and isinstance(c.func, ast.Name)}
+        reach = {f.name for f in p.reachable_from([fc_])}
+        return {'fi', 'rol'} <= (called | reach)
+    helper_form = _helper_form()
+    check_compress_generic(ctx, 'C05.RMD-STEPS', lenient=helper_form)
+    if not helper_form:
         # the helper-function form of the rounds is not there: C05.RMD-STEPS above is the whole round check
         _ripemd_pad(ctx)
         return
